@@ -31,7 +31,7 @@ BIASES = [1.0, 1.0 + 1e-9, 1.001, 1.2, 1.5, 1.68, 1.99, 2.0, 2.5, 5.0]
 
 def floors(tier):
     return {"evals": 3000, "distinct": 1500,
-            "classes": {"ranking:nds-path": 500, "ranking:shortcut-path": 100, "crowding": 500, "select:pair": 120,
+            "classes": {"ranking:nds-path": 500, "ranking:nds-path:stale-ranks-on-entry": 200, "ranking:shortcut-path": 100, "crowding": 500, "select:pair": 120,
                         "select:bias=1.0": 10, "select:draw-adjacent-1.0": 200}}
 
 
@@ -97,6 +97,14 @@ def _ranking_case(ctx, rng, cfg):
     pop = rng.choice([1, 2, max(1, n // 2), n, n + 5, 50])
     cfg.search_algorithm.population = pop
     case = {"population": pop, "matrix": [list(s.vec) for s in sols], "lengths": [s.length() for s in sols]}
+    stale = rng.random() < 0.5
+    if stale:
+        # rank and distance persist on a chromosome between generations (and are copied by clone()): the individuals of a
+        # later generation arrive with the values of an earlier ranking
+        for s_ in sols:
+            s_.rank = rng.choice([-1, 0, 0, 1, 2])
+            s_.distance = rng.choice([-1.0, 0.0, 0.5])
+        case["ranks_on_entry"] = [s_.rank for s_ in sols]
     try:
         rf = RankBasedPreferenceSorting().compute_ranking_assignment(list(sols), goals)
     except Exception as e:  # noqa: BLE001
@@ -155,7 +163,7 @@ def _ranking_case(ctx, rng, cfg):
         if {id(s) for s in got} != {id(s) for s in rest} or len(fronts) > 2:
             ctx.witness("ranking:shortcut-remainder", f"remainder front {got} != {rest}", case)
             ok = False
-    ctx.ok(cls=path, distinct=case if n >= 2 else None)
+    ctx.ok(cls=[path] + ([path + ":stale-ranks-on-entry"] if stale else []), distinct=case if n >= 2 else None)
     # crowding distance on each front
     for fr in fronts:
         if not fr:
